@@ -34,7 +34,8 @@ def run(prop, tier, seed):
     corpus = []
     for f in sorted(glob.glob(os.path.join(vlib.ROOT, "corpus", "*.abra"))):
         src = open(f, encoding="utf-8").read()
-        if "use " in src and "core/" not in src or "#foreign" in src or "readline" in src or "raylib" in src:
+        # programs that declare their own host functions cannot be run: the harness would have to know how to service them
+        if "use " in src and "core/" not in src or "#foreign" in src or "#host" in src or "readline" in src or "raylib" in src:
             continue
         corpus.append({"id": "corpus_" + os.path.basename(f)[:-5], "files": {"main.abra": src}})
     if tier == "quick":
@@ -109,5 +110,5 @@ def run(prop, tier, seed):
     })
     rep.coverage = cov
     rep.assumptions = ["'operand stack never desynchronises' is operationalised as: depth never below the frame base and the same "
-                       "relative height whenever an instruction is re-entered (TraceSched)", "FFI / terminal programs of the corpus are skipped"]
+                       "relative height whenever an instruction is re-entered (TraceSched)", "FFI / terminal programs of the corpus and those declaring their own host functions are skipped"]
     return rep.finish()
